@@ -206,3 +206,24 @@ Proof.
   replace (Z.to_nat (Z.of_nat (length blocks) - 1)) with (Nat.pred (length blocks)) by lia.
   rewrite nth_error_map, Hc. reflexivity.
 Qed.
+
+(* ---- the shipped matrices: the tables of the model are the map literals of the source ------------
+   gen/Tables.v holds the six matrices as read out of the running implementation; the init
+   functions of pam*.go / blosum*.go, translated (a map literal is the list of its entries in
+   source order), give the same function on every pair of bytes.  Where the two lists are equal
+   outright this is reflexivity; the statement is about lookups, so that an order-only change of
+   either side would not matter. *)
+From Bio.gen Require Import Tables.
+
+Definition same_lookups (src tab : list ((N * N) * Z)) : Prop := forall a b, assoc2 src a b = assoc2 tab a b.
+
+Theorem imp_init_matrices :
+  (exists l, imp_align_init_pam120_0 = Ret l /\ same_lookups l pam120_tab)
+  /\ (exists l, imp_align_init_pam160_0 = Ret l /\ same_lookups l pam160_tab)
+  /\ (exists l, imp_align_init_pam250_0 = Ret l /\ same_lookups l pam250_tab)
+  /\ (exists l, imp_align_init_blosum45_0 = Ret l /\ same_lookups l blosum45_tab)
+  /\ (exists l, imp_align_init_blosum62_0 = Ret l /\ same_lookups l blosum62_tab)
+  /\ (exists l, imp_align_init_blosum80_0 = Ret l /\ same_lookups l blosum80_tab).
+Proof.
+  repeat split; eexists; (split; [reflexivity|intros a b; reflexivity]).
+Qed.
